@@ -12,34 +12,60 @@ Local Open Scope Z_scope.
 
 Inductive mi :=
 | MI (it : item)
-| MA (its : list item) (T : list Z).      (* "[" T "]" *)
+| MA (its : list item) (T : list Z)             (* "[" T "]" *)
+| MR (n : Z) (its : list item) (T : list Z).    (* n "x[" T "]" *)
+
+Definition arr_text (T : list Z) : list Z := 91 :: T ++ [93].
+Definition arr_slots (its : list item) : list av :=
+  VArr (lty 32 its) (Z.of_nat (length (islots its))) :: islots its.
 
 Definition m_text (m : mi) : list Z :=
-  match m with MI it => item_text it | MA _ T => 91 :: T ++ [93] end.
+  match m with
+  | MI it => item_text it
+  | MA _ T => arr_text T
+  | MR n _ T => dec_nat n ++ 120 :: arr_text T
+  end.
 Definition m_slots (m : mi) : list av :=
   match m with
   | MI it => item_slots it
-  | MA its _ => VArr (lty 32 its) (Z.of_nat (length (islots its))) :: islots its
+  | MA its _ => arr_slots its
+  | MR n its _ => VRep n 0 :: arr_slots its
   end.
 Definition is_tail (it : item) : bool := match it with ITail _ _ _ _ _ _ => true | _ => false end.
 
-(* the context: Some p = the element before was an item (p its last original
-   value, None at the start of the text), None = it was an array *)
-Definition mctx := option (option av).
-Definition m_next (m : mi) : mctx := match m with MI it => Some (Some (item_last it)) | MA _ _ => None end.
+(* the context: CItem p = the element before was an item (p its last original
+   value, None at the start of the text); CArr q = it was an array or a
+   repetition of an array, q the last original value in it (None: "[]") *)
+Inductive mctx := CItem (p : option av) | CArr (q : option av).
+Definition m_next (m : mi) : mctx :=
+  match m with MI it => CItem (Some (item_last it)) | MA its _ | MR _ its _ => CArr (ilast its) end.
+
+(* a range tail "b ... c" directly after an array: the checker takes the array
+   as a whole for the left neighbour (no neighbour: unit step), the scanner the
+   slot before, the array's last value - they agree unless that value has the
+   tail's type and differs from b (finding class range-after-array) *)
+Definition aft_ok (q : option av) (it : item) : Prop :=
+  match it, q with
+  | ITail k b _ _ _ _, Some pv => types_match (av_type pv) (av_type (mk k b)) = false \/ pv = mk k b
+  | _, _ => True
+  end.
 
 Section Mixed.
 Variables dec2f dec2d : list Z -> Z.
 Notation item_ok := (item_ok dec2f dec2d).
 Notation iseq := (iseq dec2f dec2d).
 
+Definition arr_ok (its : list item) (T : list Z) : Prop :=
+  (its = [] /\ T = []) \/ (iseq None its T /\ its <> [] /\ atys_ok 0 its).
+
 Definition m_ok (c : mctx) (m : mi) : Prop :=
   match m with
   | MI it => match c with
-             | Some p => item_ok p it
-             | None => is_tail it = false /\ item_ok None it     (* no range tail after an array *)
+             | CItem p => item_ok p it
+             | CArr q => item_ok None it /\ aft_ok q it
              end
-  | MA its T => iseq None its T /\ its <> [] /\ atys_ok 0 its
+  | MA its T => arr_ok its T
+  | MR n its T => 1 <= n < 2 ^ 31 /\ arr_ok its T
   end.
 
 Inductive mseq : mctx -> list mi -> list Z -> Prop :=
@@ -51,11 +77,16 @@ Inductive mseq : mctx -> list mi -> list Z -> Prop :=
 
 Definition mslots (ms : list mi) : list av := concat (map m_slots ms).
 
+Lemma m_item_ok c it : m_ok c (MI it) -> exists p, item_ok p it.
+Proof. destruct c as [p|q]; cbn [m_ok]; [eauto|intros [H _]; eauto]. Qed.
+
 Lemma m_first c m : m_ok c m -> exists x r, m_text m = x :: r /\ first_ok x.
 Proof.
-  destruct m as [it|its T]; cbn [m_ok m_text].
-  - destruct c as [p|]; [apply item_first|intros [_ H]; exact (item_first _ _ _ _ H)].
+  destruct m as [it|its T|n its T]; cbn [m_text].
+  - intros H. destruct (m_item_ok _ _ H) as [p Hp]. exact (item_first _ _ _ _ Hp).
   - intros _. eexists _, _. split; [reflexivity|]. unfold first_ok, isspace, in_range. lia.
+  - intros [Hn _]. destruct (dec_nat_hd n ltac:(lia)) as (d & tl & E & Hd). rewrite E.
+    eexists _, _. split; [reflexivity|]. apply first_ok_num. lia.
 Qed.
 
 Lemma mseq_first c m ms T : mseq c (m :: ms) T -> exists x r, T = x :: r /\ first_ok x.
@@ -67,22 +98,75 @@ Qed.
 
 Lemma m_slots_offset c m : m_ok c m -> slots_offset (m_slots m) = Z.of_nat (length (m_slots m)).
 Proof.
-  destruct m as [it|its T]; cbn [m_ok m_slots].
-  - destruct c as [p|]; [apply item_slots_offset|intros [_ H]; exact (item_slots_offset _ _ _ _ H)].
-  - intros _. cbn [slots_offset length]. lia.
+  destruct m as [it|its T|n its T]; cbn [m_slots].
+  - intros H. destruct (m_item_ok _ _ H) as [p Hp]. exact (item_slots_offset _ _ _ _ Hp).
+  - intros _. unfold arr_slots. cbn [slots_offset length]. lia.
+  - intros _. unfold arr_slots. cbn [slots_offset length]. lia.
 Qed.
 
 Lemma m_slots_pos m : (1 <= length (m_slots m))%nat.
-Proof. destruct m as [[| |]|]; cbn; lia. Qed.
+Proof. destruct m as [[| |]| |]; cbn; lia. Qed.
 
-(* ---- the invariant of the scanner: J on the slots written ---------------------------- *)
+(* ---- the bracketed forms -------------------------------------------------------------------- *)
+Lemma arr_reads its T rest : arr_ok its T -> rest_ok rest ->
+  (forall f ll fe ib, (length T <= f \/ 2 <= f)%nat ->
+     skip_next dec2f dec2d (S f) (arr_text T ++ rest) ll fe ib
+     = Ok (rest, Z.of_nat (length (arr_slots its)), 97)) /\
+  (forall f before nb fe, (length T <= f)%nat ->
+     scan_arg_val dec2f dec2d (S f) (arr_text T ++ rest) before nb fe = Ok (arr_slots its, rest)).
+Proof.
+  intros Hok Hr.
+  assert (E : arr_text T ++ rest = 91 :: T ++ 93 :: rest) by (unfold arr_text; cbn [app]; now rewrite <- app_assoc).
+  rewrite E. destruct Hok as [[-> ->]|(HL & Hne & Hty)].
+  - destruct (empty_array_reads dec2f dec2d rest Hr) as [Hs Hc]. split; intros; [apply Hs|apply Hc].
+  - destruct (array_reads dec2f dec2d its T HL Hne Hty rest Hr) as [Hs Hc]. split; intros.
+    + replace (Z.of_nat (length (arr_slots its))) with (1 + Z.of_nat (length (islots its)))
+        by (unfold arr_slots; cbn [length]; lia).
+      destruct H as [H|H]; [now apply Hs|now apply (array_skip2 dec2f dec2d its T HL Hne Hty rest Hr)].
+    + now apply Hc.
+Qed.
+
+Lemma rep_arr_reads n its T rest : 1 <= n < 2 ^ 31 -> arr_ok its T -> rest_ok rest ->
+  (forall f ll fe ib, (length T <= f \/ 2 <= f)%nat ->
+     skip_next dec2f dec2d (S (S f)) ((dec_nat n ++ 120 :: arr_text T) ++ rest) ll fe ib
+     = Ok (rest, 1 + Z.of_nat (length (arr_slots its)), 45)) /\
+  (forall f before nb fe, (length T <= f)%nat ->
+     scan_arg_val dec2f dec2d (S (S f)) ((dec_nat n ++ 120 :: arr_text T) ++ rest) before nb fe
+     = Ok (VRep n 0 :: arr_slots its, rest)).
+Proof.
+  intros Hn Hok Hr.
+  destruct (dec_nat_hd n ltac:(lia)) as (d & tl & E & Hd).
+  destruct (rep_mult n (arr_text T) rest ltac:(lia)) as (Hmult & Hax & _).
+  assert (Esrc : (dec_nat n ++ 120 :: arr_text T) ++ rest = dec_nat n ++ 120 :: arr_text T ++ rest)
+    by (rewrite <- app_assoc; reflexivity).
+  rewrite Esrc.
+  assert (Hfc : first_class (48 + d) = FC_other) by (apply first_class_num; lia).
+  destruct (arr_reads its T rest Hok Hr) as [Hs Hsn]. destruct Hr as [Hr0 He].
+  split; intros.
+  - remember (S f) as f1 eqn:Ef. cbn [skip_next]. unfold skip_core. rewrite Hmult, Hax. rewrite E at 1. cbn [app]. rewrite Hfc.
+    subst f1. rewrite (Hs f None false ib H). rewrite He, andb_false_r. reflexivity.
+  - remember (S f) as f1 eqn:Ef. cbn [scan_arg_val]. unfold scan_core. rewrite Hmult. rewrite E at 1. cbn [app]. rewrite Hfc.
+    cbn [run_fmt]. rewrite sc_d_nat' by (try lia; reflexivity). cbn [lit]. rewrite Z.eqb_refl. cbn [run_fmt rev app].
+    subst f1. rewrite (Hsn f [] 0 false H). rewrite st32_id by lia. rewrite He, andb_false_r. reflexivity.
+Qed.
+
+(* ---- the invariant of the scanner on the slots written ---------------------------- *)
+Definition Jm (acc : list av) : Prop :=
+  match rev acc with
+  | [] => True
+  | x :: r => (forall n h, x <> VRep n h) /\
+              match r with y :: _ => forall n h, y = VRep n h -> h = 0 | [] => True end
+  end.
 Definition Jw (acc : list av) : Prop :=
   match rev acc with [] => True | y :: _ => forall n h, y <> VRep n h end.
 
-Lemma J_Jw acc : J acc -> Jw acc.
+Lemma J_Jm acc : J acc -> Jm acc.
 Proof.
-  unfold J, Jw. destruct (rev acc) as [|x r]; [auto|]. intros [Hx _] n h ->. exact Hx.
+  unfold J, Jm. destruct (rev acc) as [|x r]; [auto|]. intros [Hx Hr]. split; [|exact Hr].
+  intros n h ->. exact Hx.
 Qed.
+Lemma Jm_Jw acc : Jm acc -> Jw acc.
+Proof. unfold Jm, Jw. destruct (rev acc) as [|x r]; [auto|]. intros [Hx _]. exact Hx. Qed.
 
 Lemma J_step_w p it acc : item_ok p it -> Jw acc -> J (acc ++ item_slots it).
 Proof.
@@ -95,19 +179,88 @@ Proof.
   - split; [now destruct k|]. intros n0 h E. destruct k; discriminate.
 Qed.
 
-Lemma J_islots its T p : iseq p its T -> its <> [] -> forall acc, Jw acc -> J (acc ++ islots its).
+(* after an item's slots the scanner's left neighbour is the item's last value *)
+Lemma scan_llhs_item_m p it acc : item_ok p it -> Jm acc ->
+  scan_llhs (acc ++ item_slots it) (Z.of_nat (length (acc ++ item_slots it))) = Some (item_last it).
 Proof.
-  induction 1 as [p|p it Hok|p it sep it' its T Hok Hsep HL IH]; intros Hne acc HJ; [congruence| |].
-  - unfold islots. cbn [map concat]. rewrite app_nil_r. exact (J_step_w _ _ _ Hok HJ).
-  - unfold islots. cbn [map concat]. rewrite app_assoc. apply IH; [discriminate|].
-    apply J_Jw. exact (J_step_w _ _ _ Hok HJ).
+  intros Hok HJ. destruct it as [v t|n v t|k b d m last sp]; cbn [item_slots item_last] in *.
+  - unfold scan_llhs. rewrite (back_app acc [v] 1) by (cbn; lia). cbn [rev app nth_error Nat.pred].
+    destruct (2 <? Z.of_nat (length (acc ++ [v]))); [|reflexivity].
+    rewrite (back_app2 acc [v] 3) by (cbn; lia). cbn [length Nat.sub].
+    unfold back. cbn [Nat.pred]. unfold Jm in HJ.
+    destruct (rev acc) as [|x [|y r]]; try reflexivity. cbn [nth_error].
+    destruct y; try reflexivity. destruct HJ as [_ Hy]. rewrite (Hy _ _ eq_refl). reflexivity.
+  - unfold scan_llhs. rewrite (back_app acc [VRep n 0; v] 1) by (cbn; lia). cbn [rev app nth_error Nat.pred].
+    destruct (2 <? Z.of_nat (length (acc ++ [VRep n 0; v]))); [|reflexivity].
+    rewrite (back_app2 acc [VRep n 0; v] 3) by (cbn; lia). cbn [length Nat.sub].
+    unfold back. cbn [Nat.pred]. unfold Jm in HJ.
+    destruct (rev acc) as [|x r]; [reflexivity|]. cbn [nth_error]. destruct HJ as [Hx _].
+    destruct x; try reflexivity. exfalso. exact (Hx _ _ eq_refl).
+  - destruct Hok as ((Hsb & Hsla & Hlast & Hm & Hd0 & Hdr) & _ & _).
+    unfold scan_llhs. rewrite app_length. cbn [length].
+    match goal with |- context [2 <? ?x] => assert (E23 : (2 <? x) = true) by (apply Z.ltb_lt; lia); rewrite E23 end.
+    rewrite (back_app acc _ 3), (back_app acc _ 2), (back_app acc _ 1) by (cbn; lia).
+    cbn [rev app nth_error Nat.pred]. replace (1 =? 0) with false by reflexivity. cbn [negb].
+    rewrite range_arg_mk by lia. f_equal. f_equal. rewrite <- Hlast.
+    replace (b + (m - 1) * d) with last by lia. apply wr_id. now apply small_inr.
 Qed.
 
-Lemma J_array acc its T : iseq None its T -> its <> [] ->
-  J (acc ++ VArr (lty 32 its) (Z.of_nat (length (islots its))) :: islots its).
+Lemma Jm_islots its : Forall (fun it => exists p, item_ok p it) its -> forall acc, Jm acc -> Jm (acc ++ islots its).
 Proof.
-  intros HL Hne. change (acc ++ ?h :: islots its) with (acc ++ [h] ++ islots its). rewrite app_assoc.
-  apply (J_islots _ _ _ HL Hne). unfold Jw. rewrite rev_app_distr. cbn [rev app]. intros n h. discriminate.
+  induction 1 as [|it its [p Hok] _ IH]; intros acc HJ.
+  - unfold islots. cbn [map concat]. now rewrite app_nil_r.
+  - unfold islots. cbn [map concat]. rewrite app_assoc. apply IH. apply J_Jm.
+    exact (J_step_w _ _ _ Hok (Jm_Jw _ HJ)).
+Qed.
+
+(* an array's slots, behind the header [VArr] or [VRep n 0; VArr] *)
+Definition arr_hdr (hdr : list av) : Prop :=
+  (exists ty z, hdr = [VArr ty z]) \/ (exists n ty z, hdr = [VRep n 0; VArr ty z]).
+
+Lemma Jm_hdr acc hdr : Jm acc -> arr_hdr hdr -> Jm (acc ++ hdr).
+Proof.
+  intros HJ [(ty & z & ->)|(n & ty & z & ->)]; unfold Jm in *; rewrite rev_app_distr; cbn [rev app].
+  - split; [discriminate|]. destruct (rev acc) as [|x r]; [exact I|]. intros n h ->. exfalso. exact (proj1 HJ n h eq_refl).
+  - split; [discriminate|]. intros n0 h E. now inversion E.
+Qed.
+
+Lemma llhs_hdr acc hdr : Jm acc -> arr_hdr hdr ->
+  exists l, scan_llhs (acc ++ hdr) (Z.of_nat (length (acc ++ hdr))) = Some l /\ av_type l = 97.
+Proof.
+  intros HJ [(ty & z & ->)|(n & ty & z & ->)].
+  - exists (VArr ty z). split; [|reflexivity].
+    unfold scan_llhs. rewrite (back_app acc [VArr ty z] 1) by (cbn; lia). cbn [rev app nth_error Nat.pred].
+    destruct (2 <? Z.of_nat (length (acc ++ [VArr ty z]))); [|reflexivity].
+    rewrite (back_app2 acc [VArr ty z] 3) by (cbn; lia). cbn [length Nat.sub].
+    unfold back. cbn [Nat.pred]. unfold Jm in HJ.
+    destruct (rev acc) as [|x [|y r]]; try reflexivity. cbn [nth_error].
+    destruct y; try reflexivity. destruct HJ as [_ Hy]. rewrite (Hy _ _ eq_refl). reflexivity.
+  - exists (VArr ty z). split; [|reflexivity].
+    unfold scan_llhs. rewrite (back_app acc [VRep n 0; VArr ty z] 1) by (cbn; lia). cbn [rev app nth_error Nat.pred].
+    destruct (2 <? Z.of_nat (length (acc ++ [VRep n 0; VArr ty z]))); [|reflexivity].
+    rewrite (back_app2 acc [VRep n 0; VArr ty z] 3) by (cbn; lia). cbn [length Nat.sub].
+    unfold back. cbn [Nat.pred]. unfold Jm in HJ.
+    destruct (rev acc) as [|x r]; [reflexivity|]. cbn [nth_error]. destruct HJ as [Hx _].
+    destruct x; try reflexivity. exfalso. exact (Hx _ _ eq_refl).
+Qed.
+
+Lemma arr_after acc hdr its T :
+  arr_ok its T -> Jm acc -> arr_hdr hdr ->
+  Jm ((acc ++ hdr) ++ islots its) /\
+  exists l, scan_llhs ((acc ++ hdr) ++ islots its) (Z.of_nat (length ((acc ++ hdr) ++ islots its))) = Some l /\
+            match ilast its with Some pv => l = pv | None => av_type l = 97 end.
+Proof.
+  intros Hok HJ Hh. pose proof (Jm_hdr acc hdr HJ Hh) as HJh. destruct Hok as [[-> ->]|(HL & Hnn & _)].
+  - unfold islots. cbn [map concat]. rewrite app_nil_r. split; [exact HJh|]. cbn [ilast rev].
+    exact (llhs_hdr acc hdr HJ Hh).
+  - pose proof (iseq_items_ok dec2f dec2d _ _ _ HL) as Hall.
+    split; [now apply Jm_islots|].
+    destruct (exists_last Hnn) as (its0 & it & ->).
+    apply Forall_app in Hall as [H0 Hl]. inversion Hl as [|? ? [p' Hokl] _]; subst.
+    exists (item_last it). split.
+    + unfold islots. rewrite map_app, concat_app. cbn [map concat]. rewrite app_nil_r, app_assoc.
+      apply (scan_llhs_item_m p' it _ Hokl). now apply Jm_islots.
+    + unfold ilast. rewrite rev_app_distr. reflexivity.
 Qed.
 
 (* ---- items that are no tails need no context ------------------------------------------- *)
@@ -135,23 +288,111 @@ Proof.
     destruct (elof_rep dec2f dec2d n v t Hn Htk) as (He & _ & _). apply (proj1 (He rest Hr)). exact Hf.
 Qed.
 
-Definition mprev (c : mctx) (acc : list av) : Prop := forall p, c = Some p -> prevrel p acc.
-Definition mrecent (c : mctx) (recent : option (list Z)) (T : list Z) : Prop :=
-  forall p, c = Some p -> recentrel dec2f dec2d p recent T.
+Definition mprev (c : mctx) (acc : list av) : Prop :=
+  match c with
+  | CItem p => prevrel p acc
+  | CArr q => acc <> [] /\
+              exists l, scan_llhs acc (Z.of_nat (length acc)) = Some l /\
+                        match q with Some pv => l = pv | None => av_type l = 97 end
+  end.
+
+(* the checker's pointer to the previous value: an item, or an array / "Nx" array *)
+Definition mrecent (c : mctx) (recent : option (list Z)) (T0 : list Z) : Prop :=
+  match c with
+  | CItem p => recentrel dec2f dec2d p recent T0
+  | CArr _ => exists pre its T sepp,
+                (pre = [] \/ exists n, 1 <= n /\ pre = dec_nat n ++ [120]) /\ arr_ok its T /\ sepw sepp /\
+                recent = Some (pre ++ arr_text T ++ sepp ++ T0)
+  end.
+
+Lemma types_match_arr k b : types_match 97 (av_type (mk k b)) = false.
+Proof. now destruct k. Qed.
+Lemma types_match_refl_mk k b : types_match (av_type (mk k b)) (av_type (mk k b)) = true.
+Proof. now destruct k. Qed.
+
+Lemma tail_len6 k b last sp : (sp = [32] \/ sp = nl4) -> (5 <= length (tail_text k b last sp))%nat.
+Proof. intros [->| ->]; unfold tail_text, ell4, nl4; rewrite !app_length; cbn [length]; lia. Qed.
+
+(* a range tail directly after an array, scanner *)
+Lemma tail_scan_arr q k b d m last sp rest acc fuel :
+  item_ok None (ITail k b d m last sp) -> aft_ok q (ITail k b d m last sp) -> rest_ok rest ->
+  mprev (CArr q) acc -> (length (tail_text k b last sp) <= fuel)%nat ->
+  scan_arg_val dec2f dec2d fuel (tail_text k b last sp ++ rest) acc (Z.of_nat (length acc)) true
+  = Ok ([VRep m 1; mk k d; mk k b], rest).
+Proof.
+  intros (Hrun & Hsp & Hunit) Haft Hr (Hne & l & Hl & Hq) Hf. pose proof (tail_len k b last sp).
+  destruct fuel as [|[|f]]; try lia. cbn [ctx_ok] in Hunit.
+  assert (Hu : scan_useless acc (Z.of_nat (length acc)) (mk k b) = Some (true, l)).
+  { unfold scan_useless.
+    replace (Z.of_nat (length acc) <? 1) with false by (symmetry; apply Z.ltb_ge; destruct acc; [congruence|cbn [length]; lia]).
+    rewrite Hl. destruct q as [pv|].
+    - subst l. cbn [aft_ok] in Haft. destruct Haft as [Ht| ->].
+      + now rewrite Ht.
+      + rewrite types_match_refl_mk. cbn [negb]. now rewrite cmp_mk, cmp3_0, Z.eqb_refl.
+    - unfold types_match. rewrite Hq. now destruct k. }
+  apply (scan_tail dec2f dec2d k b d m last sp rest f acc _ true l Hrun Hsp Hr Hu).
+  left. split; [reflexivity|]. destruct Hunit. auto.
+Qed.
+
+(* a range tail directly after an array, checker: the array as a whole is the neighbour *)
+Lemma chk_after_arr pre its T sepp k b last sp rest f ib :
+  (pre = [] \/ exists n, 1 <= n /\ pre = dec_nat n ++ [120]) -> arr_ok its T -> sepw sepp ->
+  small_k k b -> rest_ok rest -> (2 <= f)%nat ->
+  chk_llhs dec2f dec2d (skip_next dec2f dec2d (S f)) (S f)
+           (Some (pre ++ arr_text T ++ sepp ++ tail_text k b last sp ++ rest)) (ell_text k last sp rest)
+           (av_type (mk k b)) (Some (mk k b)) ib = Ok (true, None).
+Proof.
+  intros Hpre Hok Hsepp Hsb Hr Hf.
+  destruct (tok_k_first dec2f dec2d k b (small_good _ _ Hsb)) as (c1 & r1 & E1 & Hc1).
+  assert (Hro : rest_ok (sepp ++ tail_text k b last sp ++ rest)).
+  { unfold tail_text. rewrite E1. rewrite <- !app_assoc. cbn [app]. now apply rest_ok_sep. }
+  destruct (arr_reads its T _ Hok Hro) as [Hs _].
+  assert (Hcmp : chk_cmp dec2f dec2d (skip_next dec2f dec2d (S f)) (S f)
+                   (arr_text T ++ sepp ++ tail_text k b last sp ++ rest) (av_type (mk k b)) (Some (mk k b)) ib
+                 = Ok (true, None)).
+  { unfold chk_cmp. rewrite (Hs f None false ib (or_intror Hf)). now rewrite types_match_arr. }
+  cbn [chk_llhs]. destruct Hpre as [->|(n & Hn & ->)].
+  - cbn [app]. unfold chk_l1, arr_text. cbn [app is_range_multiplier].
+    change (isdigit 91) with false. cbn [andb]. rewrite hd0_cons. change (91 =? 91) with true. cbv iota. exact Hcmp.
+  - rewrite <- app_assoc. cbn [app].
+    destruct (rep_mult n (arr_text T) (sepp ++ tail_text k b last sp ++ rest) Hn) as (Hm1 & Hax & _).
+    unfold chk_l1. rewrite Hm1, Hax. unfold arr_text at 1. cbn [app]. rewrite hd0_cons. change (91 =? 91) with true. cbv iota.
+    exact Hcmp.
+Qed.
+
+Lemma tail_skip_arr q k b d m last sp rest recent fuel :
+  item_ok None (ITail k b d m last sp) -> rest_ok rest ->
+  mrecent (CArr q) recent (tail_text k b last sp ++ rest) -> (length (tail_text k b last sp) <= fuel)%nat ->
+  skip_next dec2f dec2d fuel (tail_text k b last sp ++ rest) recent true false = Ok (rest, 3, 45).
+Proof.
+  intros (Hrun & Hsp & Hunit) Hr (pre & its & T & sepp & Hpre & Hok & Hsepp & ->) Hf.
+  pose proof (tail_len6 k b last sp Hsp).
+  destruct fuel as [|[|[|[|f]]]]; try lia. cbn [ctx_ok] in Hunit.
+  pose proof (chk_after_arr pre its T sepp k b last sp rest (S (S f)) false Hpre Hok Hsepp (proj1 Hrun) Hr ltac:(lia)) as Hchk.
+  apply (skip_tail dec2f dec2d k b d m last sp rest (S (S f)) _ false true None Hrun Hsp Hr Hchk).
+  left. split; [reflexivity|]. destruct Hunit. auto.
+Qed.
 
 (* one element, scanner *)
 Lemma m_scan c m rest acc fuel :
   m_ok c m -> rest_ok rest -> mprev c acc -> (length (m_text m) <= fuel)%nat ->
   scan_arg_val dec2f dec2d fuel (m_text m ++ rest) acc (Z.of_nat (length acc)) true = Ok (m_slots m, rest).
 Proof.
-  intros Hok Hr Hp Hf. destruct m as [it|its T]; cbn [m_ok m_text m_slots] in *.
-  - destruct c as [p|].
-    + exact (item_scan dec2f dec2d p it rest acc fuel Hok Hr (Hp p eq_refl) Hf).
-    + destruct Hok as [Hnt Hok]. exact (item_scan_nt it rest fuel acc _ Hnt Hok Hr Hf).
-  - destruct Hok as (HL & Hne & Hty). destruct fuel; [cbn in Hf; lia|].
-    destruct (array_reads dec2f dec2d its T HL Hne Hty rest Hr) as [_ Hs].
-    replace ((91 :: T ++ [93]) ++ rest) with (91 :: T ++ 93 :: rest) by (cbn [app]; now rewrite <- app_assoc).
-    apply Hs. cbn [length] in Hf. rewrite app_length in Hf. cbn [length] in Hf. lia.
+  intros Hok Hr Hp Hf. destruct m as [it|its T|n its T]; cbn [m_ok m_text m_slots] in *.
+  - destruct c as [p|q].
+    + exact (item_scan dec2f dec2d p it rest acc fuel Hok Hr Hp Hf).
+    + destruct Hok as [Hok Haft]. destruct (is_tail it) eqn:Et.
+      * destruct it as [| |k b d m last sp]; try discriminate. cbn [item_text item_slots] in *.
+        exact (tail_scan_arr q k b d m last sp rest acc fuel Hok Haft Hr Hp Hf).
+      * exact (item_scan_nt it rest fuel acc _ Et Hok Hr Hf).
+  - destruct fuel; [cbn in Hf; lia|]. destruct (arr_reads its T rest Hok Hr) as [_ Hs].
+    apply Hs. unfold arr_text in Hf. cbn [length] in Hf. rewrite app_length in Hf. cbn [length] in Hf. lia.
+  - destruct Hok as [Hn Hok]. destruct (rep_arr_reads n its T rest Hn Hok Hr) as [_ Hs].
+    destruct (dec_nat_hd n ltac:(lia)) as (d & tl & E & Hd).
+    assert (Hl : (length T + 4 <= fuel)%nat).
+    { rewrite E in Hf. unfold arr_text in Hf. cbn [length app] in Hf. rewrite app_length in Hf. cbn [length] in Hf.
+      rewrite app_length in Hf. cbn [length] in Hf. lia. }
+    destruct fuel as [|[|f]]; try lia. apply Hs. lia.
 Qed.
 
 (* one element, checker *)
@@ -160,35 +401,61 @@ Lemma m_skip c m rest recent fuel :
   exists ty, skip_next dec2f dec2d fuel (m_text m ++ rest) recent true false
              = Ok (rest, Z.of_nat (length (m_slots m)), ty).
 Proof.
-  intros Hok Hr Hrec Hf. destruct m as [it|its T]; cbn [m_ok m_text m_slots] in *.
-  - destruct c as [p|].
-    + exact (item_skip dec2f dec2d p it rest recent fuel Hok Hr (Hrec p eq_refl) Hf).
-    + destruct Hok as [Hnt Hok]. exact (item_skip_nt it rest recent fuel Hnt Hok Hr Hf).
-  - destruct Hok as (HL & Hne & Hty). destruct fuel; [cbn in Hf; lia|].
-    destruct (array_reads dec2f dec2d its T HL Hne Hty rest Hr) as [Hs _].
-    replace ((91 :: T ++ [93]) ++ rest) with (91 :: T ++ 93 :: rest) by (cbn [app]; now rewrite <- app_assoc).
-    exists 97. rewrite Hs by (cbn [length] in Hf; rewrite app_length in Hf; cbn [length] in Hf; lia).
-    f_equal. f_equal. f_equal. cbn [length]. lia.
+  intros Hok Hr Hrec Hf. destruct m as [it|its T|n its T]; cbn [m_ok m_text m_slots] in *.
+  - destruct c as [p|q].
+    + exact (item_skip dec2f dec2d p it rest recent fuel Hok Hr Hrec Hf).
+    + destruct Hok as [Hok Haft]. destruct (is_tail it) eqn:Et.
+      * destruct it as [| |k b d m last sp]; try discriminate. cbn [item_text item_slots] in *.
+        exists 45. exact (tail_skip_arr q k b d m last sp rest recent fuel Hok Hr Hrec Hf).
+      * exact (item_skip_nt it rest recent fuel Et Hok Hr Hf).
+  - destruct fuel; [cbn in Hf; lia|]. destruct (arr_reads its T rest Hok Hr) as [Hs _].
+    exists 97. apply Hs. left. unfold arr_text in Hf. cbn [length] in Hf. rewrite app_length in Hf. cbn [length] in Hf. lia.
+  - destruct Hok as [Hn Hok]. destruct (rep_arr_reads n its T rest Hn Hok Hr) as [Hs _].
+    destruct (dec_nat_hd n ltac:(lia)) as (d & tl & E & Hd).
+    assert (Hl : (length T + 4 <= fuel)%nat).
+    { rewrite E in Hf. unfold arr_text in Hf. cbn [length app] in Hf. rewrite app_length in Hf. cbn [length] in Hf.
+      rewrite app_length in Hf. cbn [length] in Hf. lia. }
+    destruct fuel as [|[|f]]; try lia. exists 45. rewrite Hs by lia. f_equal. f_equal. f_equal. cbn [length]. lia.
 Qed.
 
-(* after an element: J and the scanner's left neighbour *)
-Lemma m_after c m acc : m_ok c m -> J acc \/ acc = [] ->
-  J (acc ++ m_slots m) /\ mprev (m_next m) (acc ++ m_slots m).
+(* after an element: the invariant and the scanner's left neighbour *)
+Lemma m_after c m acc : m_ok c m -> Jm acc ->
+  Jm (acc ++ m_slots m) /\ mprev (m_next m) (acc ++ m_slots m).
 Proof.
-  intros Hok HJ. assert (HJw : Jw acc) by (destruct HJ as [HJ| ->]; [now apply J_Jw|exact I]).
-  assert (HJ' : J acc) by (destruct HJ as [HJ| ->]; [exact HJ|exact I]).
-  destruct m as [it|its T]; cbn [m_ok m_slots m_next] in *.
-  - assert (Hok' : exists p, item_ok p it) by (destruct c as [p|]; [eauto|destruct Hok; eauto]).
-    destruct Hok' as (p & Hokp).
-    destruct (scan_llhs_item dec2f dec2d p it acc Hokp HJ') as [HJ2 Hll]. split; [exact HJ2|].
-    intros q Eq. inversion Eq; subst q. split; [discriminate|]. intros pv Epv. inversion Epv; subst pv.
-    split; [exact (item_scalar_last _ _ _ _ Hokp)|]. split; [|exact Hll].
+  intros Hok HJ.
+  destruct m as [it|its T|n its T]; cbn [m_slots m_next] in *.
+  - destruct (m_item_ok _ _ Hok) as (p & Hokp).
+    split; [apply J_Jm; exact (J_step_w _ _ _ Hokp (Jm_Jw _ HJ))|].
+    cbn [mprev]. split; [discriminate|]. intros pv Epv. inversion Epv; subst pv.
+    split; [exact (item_scalar_last _ _ _ _ Hokp)|]. split; [|exact (scan_llhs_item_m p it acc Hokp HJ)].
     destruct (item_slots it) eqn:E; [destruct it; discriminate|]. intros E0. apply app_eq_nil in E0 as [_ E0]. discriminate.
-  - destruct Hok as (HL & Hne & _). split; [now apply (J_array acc its T)|]. intros q Eq. discriminate.
+  - cbn [m_ok] in Hok. unfold arr_slots.
+    set (h := VArr (lty 32 its) (Z.of_nat (length (islots its)))).
+    change (acc ++ h :: islots its) with (acc ++ [h] ++ islots its). rewrite app_assoc.
+    destruct (arr_after acc [h] its T Hok HJ (or_introl (ex_intro _ _ (ex_intro _ _ eq_refl)))) as [HJ' Hl].
+    split; [exact HJ'|]. cbn [mprev]. split; [|exact Hl].
+    intros E0. apply app_eq_nil in E0 as [E0 _]. apply app_eq_nil in E0 as [_ E0]. discriminate.
+  - cbn [m_ok] in Hok. destruct Hok as [Hn Hok]. unfold arr_slots.
+    set (h := VArr (lty 32 its) (Z.of_nat (length (islots its)))).
+    change (acc ++ VRep n 0 :: h :: islots its) with (acc ++ [VRep n 0; h] ++ islots its). rewrite app_assoc.
+    destruct (arr_after acc [VRep n 0; h] its T Hok HJ (or_intror (ex_intro _ _ (ex_intro _ _ (ex_intro _ _ eq_refl))))) as [HJ' Hl].
+    split; [exact HJ'|]. cbn [mprev]. split; [|exact Hl].
+    intros E0. apply app_eq_nil in E0 as [E0 _]. apply app_eq_nil in E0 as [_ E0]. discriminate.
+Qed.
+
+(* the checker's pointer after an element *)
+Lemma m_recent_next c m sep T0 : m_ok c m -> sepw sep -> mrecent (m_next m) (Some (m_text m ++ sep ++ T0)) T0.
+Proof.
+  intros Hok Hsep. destruct m as [it|its T|n its T]; cbn [m_next m_text mrecent m_ok] in *.
+  - destruct (m_item_ok _ _ Hok) as (p & Hokp). cbn [recentrel]. exists p, it, sep. repeat split; try assumption; apply Hsep.
+  - exists [], its, T, sep. split; [now left|]. split; [exact Hok|]. split; [exact Hsep|]. reflexivity.
+  - destruct Hok as [Hn Hok]. exists (dec_nat n ++ [120]), its, T, sep.
+    split; [right; exists n; split; [lia|reflexivity]|]. split; [exact Hok|]. split; [exact Hsep|].
+    rewrite <- !app_assoc. reflexivity.
 Qed.
 
 Lemma scan_loop_mseq ms T c : mseq c ms T ->
-  forall fuel i n acc, i = Z.of_nat (length acc) -> J acc \/ acc = [] -> mprev c acc ->
+  forall fuel i n acc, i = Z.of_nat (length acc) -> Jm acc -> mprev c acc ->
   n = i + Z.of_nat (length (mslots ms)) -> (length ms < fuel)%nat ->
   scan_loop dec2f dec2d fuel T i n acc = Ok (acc ++ mslots ms, []).
 Proof.
@@ -218,7 +485,7 @@ Proof.
     rewrite (IH fuel _ n (acc ++ m_slots m)).
     + now rewrite <- app_assoc.
     + rewrite app_length. lia.
-    + now left.
+    + exact HJ'.
     + exact Hp'.
     + cbn [map concat]. lia.
     + cbn [length] in *. lia.
@@ -256,16 +523,19 @@ Proof.
     rewrite skip_comments_ws_no by assumption.
     rewrite (IH fuel).
     + f_equal. f_equal. unfold mslots. cbn [map concat]. rewrite !app_length. lia.
-    + intros p Ep. destruct m as [it|its0 T0]; cbn [m_next] in Ep; [|discriminate]. inversion Ep; subst p.
-      cbn [m_text m_ok] in *. cbn [recentrel].
-      assert (Hok' : exists p, item_ok p it) by (destruct c as [p|]; [eauto|destruct Hok; eauto]).
-      destruct Hok' as (p & Hokp). exists p, it, sep. repeat split; try assumption; apply Hsep.
+    + exact (m_recent_next c m sep (c' :: r') Hok Hsep).
     + rewrite !app_length in Hf. rewrite E in Hf. cbn [length] in *. lia.
+Qed.
+
+Lemma mslots_len ms : (length ms <= length (mslots ms))%nat.
+Proof.
+  unfold mslots. induction ms as [|m ms IH]; [cbn; lia|].
+  cbn [map concat length]. rewrite app_length. pose proof (m_slots_pos m). lia.
 Qed.
 
 (* both recognisers read a mixed sequence back *)
 Theorem mseq_reads ms T :
-  mseq (Some None) ms T ->
+  mseq (CItem None) ms T ->
   count_printed_arg_vals dec2f dec2d T = Ok (true, Z.of_nat (length (mslots ms))) /\
   scan_arg_vals dec2f dec2d T (Z.of_nat (length (mslots ms))) = Ok (mslots ms, []).
 Proof.
@@ -277,16 +547,11 @@ Proof.
       - destruct (mseq_first _ _ _ _ HL) as (x & r & -> & Hx).
         destruct Hx as (H0 & H47 & H37 & Hsp & H46 & H40).
         rewrite skip_ws_nonspace by now rewrite hd0_cons. now apply skip_comments_ws_no. }
-    rewrite E. rewrite (count_loop_mseq _ _ _ HL); [reflexivity| |lia].
-    intros p Ep. inversion Ep; subst p. reflexivity.
+    rewrite E. rewrite (count_loop_mseq _ _ _ HL); [reflexivity|reflexivity|lia].
   - unfold scan_arg_vals.
-    rewrite (scan_loop_mseq _ _ _ HL _ 0 _ []); try reflexivity.
-    + now right.
-    + intros p Ep. inversion Ep; subst p. split; [reflexivity|discriminate].
-    + assert (Hle : (length ms <= length (mslots ms))%nat).
-      { clear HL. unfold mslots. induction ms as [|m ms IH]; [cbn; lia|].
-        cbn [map concat length]. rewrite app_length. pose proof (m_slots_pos m). lia. }
-      rewrite Nat2Z.id. lia.
+    rewrite (scan_loop_mseq _ _ _ HL _ 0 _ []); try reflexivity; try exact I.
+    + split; [reflexivity|discriminate].
+    + pose proof (mslots_len ms). rewrite Nat2Z.id. lia.
 Qed.
 End Mixed.
 
@@ -314,30 +579,49 @@ Qed.
 Definition ex_inner : list item := [ITail KI 1 1 6 6 [32]; IVal (VI 9) (print_d 9)].
 Definition ex_mixed : list mi :=
   [MA ex_inner (tail_text KI 1 6 [32] ++ [32] ++ print_d 9);
-   MI (IVal VT kw_true); MI (ITail KI 3 1 5 7 [32])].
+   MI (ITail KI 9 1 5 13 [32]); MI (IVal VT kw_true); MR 3 [] []].
 
+(* "[1 ... 6 9] 9 ... 13 true 3x[]": the tail 9 ... 13 directly follows the array,
+   whose last value is the tail's first *)
 Lemma mixed_example :
-  exists T, mseq dec2f dec2d (Some None) ex_mixed T /\
-            T = [91; 49; 32; 46; 46; 46; 32; 54; 32; 57; 93; 32; 116; 114; 117; 101; 32; 51; 32; 46; 46; 46; 32; 55].
+  exists T, mseq dec2f dec2d (CItem None) ex_mixed T /\
+            T = [91; 49; 32; 46; 46; 46; 32; 54; 32; 57; 93; 32; 57; 32; 46; 46; 46; 32; 49; 51; 32;
+                 116; 114; 117; 101; 32; 51; 120; 91; 93].
 Proof.
   eexists. split; [|reflexivity].
   unfold ex_mixed.
-  apply (MS_cons dec2f dec2d (Some None) (MA ex_inner (tail_text KI 1 6 [32] ++ [32] ++ print_d 9)) [32]
-           (MI (IVal VT kw_true)) [MI (ITail KI 3 1 5 7 [32])] (kw_true ++ [32] ++ tail_text KI 3 7 [32]));
+  apply (MS_cons dec2f dec2d (CItem None) (MA ex_inner (tail_text KI 1 6 [32] ++ [32] ++ print_d 9)) [32]
+           (MI (ITail KI 9 1 5 13 [32])) [MI (IVal VT kw_true); MR 3 [] []]
+           (tail_text KI 9 13 [32] ++ [32] ++ kw_true ++ [32] ++ dec_nat 3 ++ 120 :: arr_text []));
     [|apply sepw_32|].
-  - cbn [m_ok]. split; [|split; [discriminate|cbn; tauto]].
+  - cbn [m_ok]. right. split; [|split; [discriminate|cbn; tauto]].
     unfold ex_inner.
     apply (IS_cons dec2f dec2d None (ITail KI 1 1 6 6 [32]) [32] (IVal (VI 9) (print_d 9)) [] (print_d 9));
       [|apply sepw_32|].
     + exact (itail_ok None 1 6 ltac:(lia) ltac:(lia) ltac:(discriminate)).
     + apply (IS_one dec2f dec2d (Some (mk KI 6)) (IVal (VI 9) (print_d 9))). apply ival_ok. lia.
-  - apply (MS_cons dec2f dec2d None (MI (IVal VT kw_true)) [32] (MI (ITail KI 3 1 5 7 [32])) []
-             (tail_text KI 3 7 [32])); [|apply sepw_32|].
-    + cbn [m_ok]. split; [reflexivity|]. cbn [item_ok]. split.
-      * exact (proj1 (scalar_tok dec2f dec2d {| lossless := true; prec := 2; linelength := 80; compress := false |}
-                        VT 0 _ _ _ I eq_refl)).
-      * apply nodot_sdots. repeat constructor; lia.
-    + apply (MS_one dec2f dec2d (Some (Some VT)) (MI (ITail KI 3 1 5 7 [32]))). cbn [m_ok].
-      exact (itail_ok (Some VT) 3 5 ltac:(lia) ltac:(lia) ltac:(intros pv E; inversion E; reflexivity)).
+  - apply (MS_cons dec2f dec2d (CArr (Some (VI 9))) (MI (ITail KI 9 1 5 13 [32])) [32] (MI (IVal VT kw_true)) [MR 3 [] []]
+             (kw_true ++ [32] ++ dec_nat 3 ++ 120 :: arr_text [])); [|apply sepw_32|].
+    + cbn [m_ok]. split; [|right; reflexivity].
+      exact (itail_ok None 9 5 ltac:(lia) ltac:(lia) ltac:(discriminate)).
+    + apply (MS_cons dec2f dec2d (CItem (Some (mk KI 13))) (MI (IVal VT kw_true)) [32] (MR 3 [] []) []
+               (dec_nat 3 ++ 120 :: arr_text [])); [|apply sepw_32|].
+      * cbn [m_ok item_ok]. split.
+        -- exact (proj1 (scalar_tok dec2f dec2d {| lossless := true; prec := 2; linelength := 80; compress := false |}
+                          VT 0 _ _ _ I eq_refl)).
+        -- apply nodot_sdots. repeat constructor; lia.
+      * apply (MS_one dec2f dec2d (CItem (Some VT)) (MR 3 [] [])). cbn [m_ok]. split; [lia|]. left. split; reflexivity.
+Qed.
+(* white space between tokens is arbitrary: "1" newline four blanks "true" tab "-7" *)
+Lemma linebreak_example :
+  lang dec2f dec2d [VI 1; VT; VI (-7)] ([49] ++ nl4 ++ kw_true ++ [9] ++ [45; 55]).
+Proof.
+  apply (L_cons dec2f dec2d (VI 1) [49] nl4 VT [VI (-7)] (kw_true ++ [9] ++ [45; 55])); [|apply sepw_nl4|].
+  - exact (tok_k_tokof dec2f dec2d KI 1 ltac:(cbn; lia)).
+  - apply (L_cons dec2f dec2d VT kw_true [9] (VI (-7)) [] [45; 55]).
+    + exact (proj1 (scalar_tok dec2f dec2d {| lossless := true; prec := 2; linelength := 80; compress := false |}
+                      VT 0 _ _ _ I eq_refl)).
+    + split; [discriminate|]. repeat constructor.
+    + apply L_one. exact (tok_k_tokof dec2f dec2d KI (-7) ltac:(cbn; lia)).
 Qed.
 End Example.
